@@ -72,6 +72,17 @@ def proppatch_resourcetype(kind, sets=()):
     return f'<?xml version="1.0" encoding="utf-8"?><D:propertyupdate {NS}>{"".join(parts)}</D:propertyupdate>'.encode()
 
 
+def proppatch_ordered(instr):
+    """instr: [("set", clark, text) | ("remove", clark)] in document order (RFC 4918 9.2: processed in that order)"""
+    parts = []
+    for i in instr:
+        if i[0] == "set":
+            parts.append(f"<D:set><D:prop><{q(i[1])}>{xesc(i[2])}</{q(i[1])}></D:prop></D:set>")
+        else:
+            parts.append(f"<D:remove><D:prop><{q(i[1])}/></D:prop></D:remove>")
+    return f'<?xml version="1.0" encoding="utf-8"?><D:propertyupdate {NS}>{"".join(parts)}</D:propertyupdate>'.encode()
+
+
 def mkcol_ext(kind, sets=(), rt_last=False):
     rt = RT_XML[kind]
     others = "".join(f"<{q(n)}>{xesc(v)}</{q(n)}>" for n, v in sets)
